@@ -90,7 +90,10 @@ pub fn worker() -> i32 {
                 let lt = crate::kit::f2b(&p.config.log_trace_domain_size).to_u64_digits().first().cloned().unwrap_or(0).min(80);
                 let a = crate::props::c14::run_validate(l, &p.public_input, lt);
                 let b = crate::props::c14::run_hashes(l, &p.public_input).0;
-                format!("{}+{}", a.short(), b.short())
+                // ... and the digest that seeds the transcript
+                let nf = p.config.n_verifier_friendly_commitment_layers;
+                let d = crate::kit::panics::catch(|| p.public_input.get_hash(nf)).is_ok();
+                format!("{}+{}+{}", a.short(), b.short(), if d { "digest" } else { "digest-panic" })
             }
             Some(p) => verify(&p, &layout).class(),
             None => "untypable".to_string(),
@@ -419,6 +422,23 @@ fn cases_for(bi: usize, b: &Base) -> Vec<Case> {
     for (desc, v) in redeclarations(b) {
         out.push(Case { base: bi, desc: desc.clone(), class: format!("redeclare:{}", desc.split(' ').take(2).collect::<Vec<_>>().join("-")), value: Input::Full(v) });
     }
+    out.extend(page_header_cases(bi, &shared, ""));
+    out
+}
+
+/// A continuous page header appended to the public input, its declared `size` (and start address) at the extremes:
+/// the header is 4 numbers of the proof, whatever it declares (no shipped proof has one, so the single-field menu
+/// above never reaches the code that reads headers).
+fn page_header_cases(bi: usize, shared: &Arc<Value>, tag: &str) -> Vec<Case> {
+    let mut out = Vec::new();
+    let path = jw::parse_path("public_input.continuous_page_headers");
+    for (st, start) in [("2^20", "0x100000"), ("2^62", "0x4000000000000000")] {
+        for e in [0u32, 1, 16, 20, 24, 26, 27, 28, 30, 31, 32, 33, 40, 48, 56, 58, 60, 62, 63, 64, 96, 128, 250] {
+            let size = format!("0x{:x}", num_bigint::BigUint::from(1u8) << e);
+            let hdr = json!([{"start_address": start, "size": size, "hash": "0x1", "prod": "0x1"}]);
+            out.push(Case { base: bi, desc: format!("{}page header appended: start {} size 2^{}", tag, st, e), class: format!("{}page-header:size", tag), value: Input::Edit { base: shared.clone(), path: path.clone(), value: hdr } });
+        }
+    }
     out
 }
 
@@ -471,6 +491,7 @@ pub fn run(ctx: &Ctx) -> Report {
                 }
             }
         }
+        cases.extend(page_header_cases(bi, &shared, "pubin: "));
         bs.push(Base { name: b.name.clone(), layout: format!("pubin:{}", b.layout), value: b.value });
     }
     let _ = n_verify_bases;
